@@ -1047,7 +1047,7 @@ func loadCorpus07() corpus07 {
 func runC07(r *Run, rng *Rng, tier string) error {
 	log.SetOutput(io.Discard)
 	r.shard = 100
-	nSeq, nStrip, nLawSeq, nBuild := 1100, 300, 1500, 260
+	nSeq, nStrip, nLawSeq, nBuild := 900, 250, 1300, 260
 	if tier == "thorough" {
 		nSeq, nStrip, nLawSeq, nBuild = 8000, 2000, 30000, 4000
 	}
